@@ -12,6 +12,28 @@ def outcome(ans):
     return (ans or 'MISSING').split(' ', 1)[0]
 
 
+def canon_sto(ans, stack):
+    """NaN payloads are not preserved by a float<->double conversion (and NaN is outside C07/C08): one token per NaN in storage read-outs"""
+    prim = stack.split('/')[-1].split('.')
+    if prim[0] != 'array' or not ans:
+        return ans
+    t = prim[2]
+    out = []
+    for part in ans.split(' | '):
+        if part.startswith('S '):
+            toks = part.split(' ')
+            for q in range(2, len(toks)):
+                try:
+                    v = int(toks[q])
+                except ValueError:
+                    continue
+                if (t == 'f32' and (v >> 23) & 0xFF == 0xFF and v & 0x7FFFFF) or (t == 'f64' and (v >> 52) & 0x7FF == 0x7FF and v & ((1 << 52) - 1)):
+                    toks[q] = 'nan'
+            part = ' '.join(toks)
+        out.append(part)
+    return ' | '.join(out)
+
+
 def put_u32(hexs, off, v):
     return hexs[:2 * off] + (v & 0xFFFFFFFF).to_bytes(4, 'little').hex() + hexs[2 * off + 8:]
 
@@ -186,7 +208,7 @@ def run(replay=None):
                 chk.obligation_broken(f'model reader accepts {descr[0]} on {n}', f'{m[:200]}')
             elif not must_reject and m is not None:
                 # the model accepts: the implementation must load the same thing
-                if a != m:
+                if canon_sto(a, n) != canon_sto(m, n):
                     chk.violation(f'{descr[0]}: accepted by the format but loaded differently: ' + n.split('/')[-1].split('.')[0],
                                   f'{n} in build {cfg}: {descr}: impl {a[:300]} model {m[:300]}', {'lines': [[n, ops, expect]], 'impl': a[:1000], 'model': m[:1000], 'build': cfg})
         if nflt % 401 == 0:
